@@ -197,7 +197,8 @@ def run_adversary(key, res, code=None):
             if (id(obj), name) not in shared or threading.current_thread() is not main or kind == "w":
                 return  # the adversary strikes before every read and right after every write of the caller
             v = rt.fresh_int(f"adv{len(writes)}", 0, 10)
-            writes.append((kind, name, v))
+            owner = "algo" if obj is algo else next((k for c in type(algo).__mro__ for k, val in vars(c).items() if val is obj), "?")
+            writes.append((kind, name, v, owner))
             t = threading.Thread(target=lambda: setattr(obj, name, rt.SymInt(v)))
             t.start()
             t.join()
@@ -222,7 +223,7 @@ def run_adversary(key, res, code=None):
             acct = "".join(map(chr, H.model_cps(m, holder["a"])))
             if code is not None:
                 acct = "DE" + "".join(map(chr, H.model_cps(m, holder["dd"]))) + code + acct
-            ws = [[k, n, m.eval(v, model_completion=True).as_long()] for k, n, v in holder["writes"]]
+            ws = [[k, n, m.eval(v, model_completion=True).as_long(), o] for k, n, v, o in holder["writes"]]
             res["violations"].append({"property": "C14", "what": f"{key}: validating {acct} while another thread leaves {ws} in the shared scratch state gives a different answer than alone",
                                       "mode": "violation", "setup": {"module": "spec.replay_c14", "func": "replay_adversary"}, "key": key, "account": acct, "writes": ws, "engine": H.outcome_of(conc)})
         elif "w" not in holder and ctx.witness():
@@ -231,7 +232,7 @@ def run_adversary(key, res, code=None):
             acct = "".join(map(chr, H.model_cps(m, holder["a"])))
             if code is not None:
                 acct = "DE" + "".join(map(chr, H.model_cps(m, holder["dd"]))) + code + acct
-            ws = [[k, n, m.eval(v, model_completion=True).as_long()] for k, n, v in holder["writes"]]
+            ws = [[k, n, m.eval(v, model_completion=True).as_long(), o] for k, n, v, o in holder["writes"]]
             res["witnesses"].append({"property": "C14", "what": f"{key} against adversary writes", "mode": "witness", "setup": {"module": "spec.replay_c14", "func": "replay_adversary_witness"},
                                      "key": key, "account": acct, "writes": ws, "engine": {"outcome": "return"}})
 
